@@ -316,4 +316,154 @@ Proof. intros s [|i] H; cbn; [apply claim_list_inv; assumption|now apply thread_
 
 Lemma run_inv : forall l s, RInv s -> RInv (run prog slots true bf s l).
 Proof. induction l as [|a l IH]; intros s H; cbn; [exact H|]. apply IH. now apply step_inv. Qed.
+
+(* ---------- progress ---------- *)
+Definition active (s : rstate) (i : inv) : bool :=
+  match st_of s i with NotCreated | Final => false | _ => true end.
+
+Lemma max_true : forall (P : nat -> bool) k, (exists i, i < k /\ P i = true) ->
+  exists m, m < k /\ P m = true /\ forall j, m < j -> j < k -> P j = false.
+Proof.
+  intros P k. induction k as [|k IH]; intros [i [Hi Hp]]; [lia|].
+  destruct (P k) eqn:Ek.
+  - exists k. repeat split; [lia|assumption|intros j H1 H2; lia].
+  - assert (i < k) as Hik by (destruct (Nat.eq_dec i k) as [->|]; [congruence|lia]).
+    destruct (IH (ex_intro _ i (conj Hik Hp))) as [m (Hm & Hpm & Hmax)].
+    exists m. repeat split; [lia|assumption|].
+    intros j H1 H2. destruct (Nat.eq_dec j k) as [->|]; [assumption|apply Hmax; lia].
+Qed.
+
+Lemma forallb_false_ex : forall (A : Type) (f : A -> bool) l, forallb f l = false -> exists x, In x l /\ f x = false.
+Proof.
+  intros A f l; induction l as [|a l IH]; cbn; intros H; [discriminate|].
+  apply andb_false_iff in H. destruct H as [H|H]; [exists a; auto|].
+  destruct (IH H) as [x [Hx Hf]]. exists x. auto.
+Qed.
+
+Lemma count_zero : forall p s, (forall i, i < length (ist s) -> p (st_of s i) = false) -> count p s = 0.
+Proof.
+  intros p s H. unfold count.
+  assert (filter p (ist s) = []) as ->; [|reflexivity].
+  assert (forall x, In x (ist s) -> p x = false) as Hx.
+  { intros x Hin. destruct (In_nth _ _ NotCreated Hin) as [i [Hi Hn]]. rewrite <- Hn. now apply H. }
+  revert Hx. generalize (ist s). induction l as [|a l IH]; intros Hx; cbn; [reflexivity|].
+  rewrite (Hx a (or_introl eq_refl)). apply IH. intros x Hin. apply Hx. now right.
+Qed.
+
+Theorem progress : forall s, RInv s -> 1 <= slots -> (exists i, i < n /\ active s i = true) ->
+  exists a, phi prog (STEP s a) < phi prog s.
+Proof.
+  intros s H Hs Hact. pose proof H as [Hl Hq Hd Hc].
+  destruct (existsb (thread_productive prog s) (seq 0 n)) eqn:Ep.
+  - apply existsb_exists in Ep. destruct Ep as [i [_ Hi]]. exists (SThread i). cbn.
+    now apply thread_step_decreases.
+  - assert (forall i, i < n -> thread_productive prog s i = false) as Hnp.
+    { intros i Hi. destruct (thread_productive prog s i) eqn:E; [|reflexivity].
+      assert (existsb (thread_productive prog s) (seq 0 n) = true) as Hx
+        by (apply existsb_exists; exists i; split; [apply in_seq; lia|assumption]).
+      congruence. }
+    (* every thread is blocked in a declared wait: nobody occupies a slot *)
+    assert (forall i, i < n -> match st_of s i with
+                               | Pending => False
+                               | Running pc d w => d = true /\ w = true /\ exists cs, nth_error (prog i) pc = Some (Wait cs) /\ all_final s cs = false
+                               | _ => True end) as Hblocked.
+    { intros i Hi. specialize (Hnp i Hi). unfold thread_productive in Hnp.
+      destruct (st_of s i) as [| | |pc d w|] eqn:Es; auto; [discriminate|].
+      destruct (nth_error (prog i) pc) as [[c|cs]|]; try discriminate.
+      apply orb_false_iff in Hnp. destruct Hnp as [Ha Hd']. apply negb_false_iff in Hd'. subst d.
+      repeat split; [eapply Hd; eauto|eauto]. }
+    assert (free_slots slots true s = slots) as Hfree.
+    { unfold free_slots. rewrite count_zero; [lia|].
+      intros i Hi. rewrite Hl in Hi. specialize (Hblocked i Hi).
+      destruct (st_of s i) as [| | |pc d w|]; cbn; try reflexivity; [contradiction|].
+      destruct Hblocked as (_ & -> & _). reflexivity. }
+    destruct (queue s) as [|x q] eqn:Eq.
+    + (* nothing queued: contradiction by the maximal active invocation *)
+      exfalso. destruct (max_true (active s) n Hact) as [m (Hm & Ham & Hmax)].
+      specialize (Hblocked m Hm). unfold active in Ham.
+      destruct (st_of s m) as [| | |pc d w|] eqn:Es; try discriminate.
+      * assert (In m []) as Hin by (apply Hq; assumption). contradiction.
+      * contradiction.
+      * destruct Hblocked as (_ & _ & cs & Hn & Haf).
+        destruct (forallb_false_ex _ _ _ Haf) as [c [Hcin Hcf]].
+        destruct (waits_called m pc cs c Hn Hcin) as [pc' [Hlt Hcall]].
+        destruct (calls_up m pc' c Hcall) as [Hmc Hcn].
+        pose proof (Hc m pc d w pc' c Es Hlt Hcall) as Hcre.
+        specialize (Hmax c Hmc Hcn). unfold active in Hmax.
+        destruct (st_of s c); try discriminate; try contradiction; cbn in Hcf; discriminate.
+    + exists SLoop. cbn. apply loop_iter_decreases.
+      * rewrite Hfree. assumption.
+      * exists x. split; [rewrite Eq; now left|]. apply Hq. now left.
+Qed.
+
+(* ---------- completion: from every reachable state the forest can be driven to completion, in at most
+   phi steps; together with `step_nonincreasing` (no step ever increases phi) and `progress` (a
+   decreasing step is always enabled) this is termination under any schedule that does not starve
+   enabled productive steps for ever ---------- *)
+Theorem completes : forall k s, phi prog s <= k -> RInv s -> 1 <= slots ->
+  exists l, length l <= k /\ forall i, i < n -> active (run prog slots true bf s l) i = false.
+Proof.
+  induction k as [|k IH]; intros s Hk H Hs.
+  - exists []. split; [cbn; lia|]. intros i Hi. cbn.
+    destruct (active s i) eqn:Ea; [|reflexivity]. exfalso.
+    destruct (progress s H Hs (ex_intro _ i (conj Hi Ea))) as [a Ha]. lia.
+  - destruct (existsb (active s) (seq 0 n)) eqn:Ex.
+    + apply existsb_exists in Ex. destruct Ex as [i [Hin Ha]]. apply in_seq in Hin.
+      assert (i < n) as Hi by lia.
+      destruct (progress s H Hs (ex_intro _ i (conj Hi Ha))) as [a Hdec].
+      assert (phi prog (STEP s a) <= k) as Hk' by lia.
+      destruct (IH (STEP s a) Hk' (step_inv s a H) Hs) as [l [Hlen Hfin]].
+      exists (a :: l). split; [cbn; lia|]. intros j Hj. cbn. now apply Hfin.
+    + exists []. split; [cbn; lia|]. intros i Hi. cbn.
+      destruct (active s i) eqn:Ea; [|reflexivity].
+      assert (existsb (active s) (seq 0 n) = true) as Hx
+        by (apply existsb_exists; exists i; split; [apply in_seq; lia|assumption]).
+      congruence.
+Qed.
+
+(* the initial state of a forest: every id below n not yet created except the roots, which are queued *)
+Lemma RInv_init : forall roots, NoDup roots -> (forall r, In r roots -> r < n) ->
+  RInv (init n roots).
+Proof.
+  intros roots Hnd Hr.
+  assert (forall rs l, length l = n -> (forall r, In r rs -> r < n) ->
+            length (fold_left (fun l r => set_nth r Registered l) rs l) = n /\
+            forall x, nth x (fold_left (fun l r => set_nth r Registered l) rs l) NotCreated =
+                      if existsb (Nat.eqb x) rs then Registered else nth x l NotCreated) as Hfold.
+  { induction rs as [|r rs IH]; intros l Hl Hin; cbn; [split; [assumption|reflexivity]|].
+    destruct (IH (set_nth r Registered l) ltac:(now rewrite set_nth_length) (fun y Hy => Hin y (or_intror Hy))) as [H1 H2].
+    split; [assumption|]. intros x. rewrite H2.
+    destruct (existsb (Nat.eqb x) rs); [now rewrite orb_true_r|]. rewrite orb_false_r.
+    destruct (Nat.eqb_spec x r) as [->|ne].
+    - apply nth_set_nth_same. rewrite Hl. apply Hin. now left.
+    - apply nth_set_nth_other. congruence. }
+  destruct (Hfold roots (repeat NotCreated n) (repeat_length _ _) Hr) as [H1 H2].
+  assert (forall x, st_of (init n roots) x = if existsb (Nat.eqb x) roots then Registered else NotCreated) as Hst.
+  { intros x. unfold st_of, init. cbn [ist]. rewrite H2. destruct (existsb (Nat.eqb x) roots); [reflexivity|].
+    destruct (Nat.lt_ge_cases x n); [now rewrite nth_repeat|rewrite nth_overflow; [reflexivity|now rewrite repeat_length]]. }
+  constructor.
+  - exact H1.
+  - intros x. cbn [queue init]. rewrite Hst. destruct (existsb (Nat.eqb x) roots) eqn:E.
+    + apply existsb_exists in E. destruct E as [y [Hy He]]. apply Nat.eqb_eq in He. subst. tauto.
+    + split; [|discriminate]. intros Hin. exfalso.
+      assert (existsb (Nat.eqb x) roots = true) by (apply existsb_exists; exists x; split; [assumption|apply Nat.eqb_refl]).
+      congruence.
+  - intros i pc d w Hi. rewrite Hst in Hi. destruct (existsb (Nat.eqb i) roots); discriminate.
+  - intros i pc d w pc' c Hi. rewrite Hst in Hi. destruct (existsb (Nat.eqb i) roots); discriminate.
+Qed.
 End Progress.
+
+(* ---------- counting waiting threads against the slots deadlocks a single-slot runner ---------- *)
+Definition prog_parent_child (i : inv) : list action := match i with 0 => [Call 1; Wait [1]] | _ => [] end.
+
+Lemma no_slot_release_deadlocks :
+  let s := run prog_parent_child 1 false true (init 2 [0])
+             [SLoop; SThread 0; SThread 0; SThread 0; SLoop; SThread 0; SLoop] in
+  st_of s 1 = Registered /\ st_of s 0 = Running 1 true true /\
+  (* ... and no step changes anything any more *)
+  (forall a, step prog_parent_child 1 false true s a = s).
+Proof.
+  cbn. split; [reflexivity|]. split; [reflexivity|].
+  intros [|[|[|i]]]; try (vm_compute; reflexivity).
+  unfold step, thread_step, st_of. cbn. destruct i; reflexivity.
+Qed.
